@@ -32,7 +32,7 @@ CLAIMS = {
          "One layer is the lattice join keep < file < tree with the payload preserved and the filter observing every non-Err entry exactly once (also entries already discarded upstream); two stacked real FilterEntry layers; Verus lemmas lift the one-layer contract to any stack and show order independence.",
          "The `filtrate` loop is bounded (<= 3 items); Not is exercised with the empty program only (regex is_match stubbed, unreachable); walkdir assumed."),
  "C17": ("proof", "Kani harness-stated contracts on span arithmetic, parse-error span, un-rooting",
-         "Partial: the parse-error span lies on character boundaries inside the expression (fragment of <= 2 arbitrary characters), span union and un-rooting arithmetic stay inside the expression and delimit the right text, rule-error and capture spans are reported as stored; partition's pop_expression_bytes (hoisted from the function body) removes exactly the offset in BYTES (bounded: <= 4 bytes). Token spans produced by pori and the rest of partition's body (offset sum, span rewrite closure, the owned / borrowed arms) are assumed.",
+         "Partial: the parse-error span lies on character boundaries inside the expression (fragment of <= 2 arbitrary characters), span union and un-rooting arithmetic stay inside the expression and delimit the right text, rule-error and capture spans are reported as stored; partition's pop_expression_bytes (hoisted from the function body) removes exactly the offset in BYTES (bounded: <= 4 bytes). The REAL Glob::captures numbers exactly the capturing top-level tokens from 1 in expression order, each with the span stored for its own token (bounded: 3 leaf tokens). Token spans produced by pori and the rest of partition's body (offset sum, span rewrite closure, the owned / borrowed arms) are assumed.",
          "pori::span (T4), the partition offset rewrite (a closure) and everything that builds spans from parser output assumed."),
  "C18": ("proof", "Kani harness-stated contracts over all of char against parser constants re-extracted each run + Verus verbatim predicates + Verus tokenisation lemma; escape bounded",
          "Meta-character set = parser stop set minus separator / backslash = escapable set, for every char, against constants re-read from the parser on every run; contextual set likewise; a Verus lemma shows escape-then-tokenise is the identity for any text without backslash; the structure of `escape` itself is only a bounded check (<= 2 ASCII characters).",
@@ -41,7 +41,7 @@ CLAIMS = {
          "Thin: into_owned of leaves preserves kind / text / flag; the REAL Repetition::decompose followed by the REAL compose (the step fold_map performs at every repetition) restores the bounds exactly, complete over usize x Option<usize>; OwnedText::get indexing. The fold_map driver itself, regex Captures conversion, Display / FromStr routes are assumed.",
          "fold_map driver (T3), From<&regex::Captures>, Display/FromStr/Pattern routes assumed; literal text bounded to 2 ASCII bytes."),
  "C20": ("proof", "Kani harness-stated contracts on the real FilterEntry / Not / transpose_filtrate over a mock input feeding Err items",
-         "Partial: negations and entry filters pass Err items through unchanged (depth, kind), in place, without calling the filter and without cancelling; `filtrate` yields an Err like any other filtrate. Fault generation (walkdir / OS) and 'the remaining entries are those of a fault-free walk' are not decided.",
+         "Partial: negations and entry filters pass Err items through unchanged (depth, kind), in place, without calling the filter and without cancelling; `filtrate` yields an Err like any other filtrate. WalkError::path() names the offending path (the link of a cycle, not its ancestor; the faulting path of an I/O error) and depth() the stored depth. Fault generation (walkdir / OS) and 'the remaining entries are those of a fault-free walk' are not decided.",
          "From<walkdir::Error>, WalkTree::next, the glob walker closure and the file system assumed."),
 }
 NA = {
